@@ -535,7 +535,7 @@ def replay(path):
     model = vlib.build_model('conc'); impl = vlib.build_harness('conc')
     cfg = {k: r.get(k, 0) for k in ('mode', 'n', 'per', 'seed', 'perturb', 'dup', 'stall')}
     print('recorded    ', r.get('kind'), r.get('detail'))
-    print('recorded schedule (tail):', ' '.join(r.get('schedule_up_to_first_rejected_event', [])))
+    print('recorded schedule (tail):', ' '.join(r.get('schedule_up_to_first_rejected_event', []) or r.get('trace_sink_emission_reception', [])))
     for k in range(5):   # schedules are not deterministic: re-run the same configuration a few times
         rc, hdr, toks, err = run_one(impl, cfg)
         bad = classify(toks, nprod(cfg), cfg['per']) if hdr else [('crash', err[-200:], 0)]
